@@ -231,6 +231,8 @@ def _case(seed: int) -> Dict[str, Any]:
                 diff = {i: (got.get(i), exp.get(i)) for i in set(got) | set(exp) if got.get(i) != exp.get(i)}
                 fails.append({"what": "links_match_oracle", "input": {"seed": seed, "rank": rk, "events": evs},
                               "observed": {str(k): v[0] for k, v in list(diff.items())[:6]}, "expected": {str(k): v[1] for k, v in list(diff.items())[:6]}})
+                if set(got) != set(exp):
+                    continue  # the frame does not even hold the file's events under their ids: the remaining comparisons have nothing to stand on
             # the same events under ANOTHER numbering of the symbols: the synchronisation names get the smallest ids (0, 1), as happens
             # for some hash seeds / vocabularies; the links do not depend on which number a name carries
             from hta.common.trace import transform_correlation_to_index
